@@ -55,7 +55,17 @@ def _plaintext(rng: Rng, zipped: bool) -> bytes:
         return rng.bytes_(rng.pick([256000, 200000]))      # incompressible, at / below the limit
     if r < 0.7:
         return ("ünï¢ödé " * rng.randrange(1, 20)).encode()
+    if r < 0.82:
+        return pad_lookalike(rng)
     return rng.bytes_(rng.randrange(1, 200))
+
+
+def pad_lookalike(rng: Rng) -> bytes:
+    """a plaintext whose own last octet(s) equal the PKCS#7 padding a 16-octet block cipher will append ("hello\n": 6 octets, pad 0x0a)"""
+    n = rng.pick([6, 3, 7, 16, 32, 13, 15, 1, 22, 29]) if rng.chance(0.7) else rng.randrange(1, 60)
+    pad = 16 - n % 16
+    tail = rng.pick([1, 1, 2, min(n, pad)])
+    return rng.bytes_(max(0, n - tail)) + bytes([pad]) * min(n, tail)
 
 
 def _subset_ok(want: dict | None, got: dict | None) -> bool:
